@@ -245,7 +245,9 @@ def term(p: Program, expr: ast.AST, inst, depth: int = 0):
             f = p.lookup_field(bt[1], expr.attr)
             if f is not None and m is None:
                 owner_cls, ann, default = f
-                if isinstance(default, ast.Constant) and expr.attr not in stored_attrs(p):
+                is_classvar = ann is not None and 'ClassVar' in unparse(ann)
+                if isinstance(default, ast.Constant) and expr.attr not in stored_attrs(p) and not p.is_protocol(owner_cls) \
+                        and not is_classvar and not p.is_protocol(bt[1]):
                     return ('const', default.value)
         if bt[0] == 'type' and bt[1][0] == 'class':
             return ('global', f'{bt[1][1].qualname}.{expr.attr}')
